@@ -6,7 +6,7 @@ without NameError / UnboundLocalError / AttributeError); the property's listed
 negative shapes must be rejected; 'defined in both branches, used after' is
 unspecified and not judged.
 """
-from .. import ctxgen, scopeseq
+from .. import ctxgen, scopeseq, ctorseq
 from ..pyside import run_python, went_wrong
 from ..staticprop import evaluate_verdict
 
@@ -93,6 +93,8 @@ def cases(tier, seed):
     yield from ctxgen.cases_for(payloads(tier), depth, "c09")
     # the scope machine: every statement sequence over {def, def fin, shadowing def, assign, typed uses, 7 block kinds} within a size bound
     yield from scopeseq.cases("C09", tier)
+    # the constructor machine: every constructor body over {assign a, assign y, read a, read y, read / assign through y, if, if-else}
+    yield from ctorseq.cases("C09", tier)
 
 
 def evaluate(case, drv):
